@@ -17,6 +17,8 @@ Engine E1: exhaustive enumeration of
               caller's default_filters / buffer_filters / imports lists must be unchanged,
   (3e) fpart: spellings of the filter list itself (comments, trailing comma, several lines, blanks in attributes) and a
               page filter named by a context callable: the documented composition or a loud refusal, nothing else,
+  (3f) strict: strict_undefined=True with a context of data names only: every flag name in every filter position
+              (expression, page, filter= of def/block/text, buffer_filters, default_filters), via Template and TemplateLookup,
   (4) spell : every spelling of the expression text from a bounded grammar (specials only inside brackets or
               string literals) x spellings of the filter part,
 each printed from a small IR (mc/c02_ref.py), compiled and rendered by the real Template, and compared with the
@@ -70,6 +72,7 @@ ASSUMPTIONS = [
     "nested pipelines: the reference composition is unchanged - each expression uses its own filter list whatever else is evaluated meanwhile; capture(f) is the documented built-in (fresh buffer, returns the content); concurrent renders in other threads are not enumerated here",
     "filter-list spellings the documentation never shows (comment, trailing comma, several lines, blanks inside filter= attributes) and a <%page> filter named by a context callable: accepted with the documented meaning or refused loudly (SyntaxException/CompileException, resp. NameError) - anything else is a violation",
     "order dependence: a failure seen in a long-lived worker is re-run in a fresh interpreter alone and after each of the 24 preceding cases (core.find_prelude); the shared-list histories carry their own history",
+    "`n` inside default_filters / buffer_filters is not documented and is not enumerated",
     "tagging user filters convert their argument with str() so that Markup.__add__ escaping never enters the comparison",
     "CPython eval/exec, str, markupsafe, html.entities, urllib.parse are trusted",
 ]
@@ -81,6 +84,8 @@ BOUNDS = {
         "buffered def without filter= x 3 calling filters x 3 buffer_filters x 6 D x 6 P x 5 values",
         "nest": "36 ordered (outer, inner) filter pairs of {decode.utf8, decode.latin1, decode.ascii, h, x, f1} x inner pipeline run in {def, buffered def, capture(def), second template with local filter, second template with default_filters} x outer filter given {locally after n, as default_filters}; "
         "36 pairs in one list x {n + list, default_filters=[] + list, default_filters=[first] + [second]} x 4 values (utf-8 / latin-1 / ascii bytes, str)",
+        "strict": "strict_undefined=True, context = data names only, user callables from imports=; 11 names (n, h, x, u, trim, entity, unicode, str, decode.utf8, decode.latin1, f1): lists of <=1 x 3 D x 4 P x 5 positions; lists of 2 x {body, def} x 2 P; "
+        "page lists [f], [n, f], [f, f4] x 3 local lists x 5 positions; filter= lists of <=2 x {def, buffered def, blocks, text} x 2 (B, D, P); buffer_filters and default_filters [f], [f, g], [g, f]; all x {Template, TemplateLookup} x 2 values",
         "vals": "9 filters x {n+f, n+f+f1, default_filters=[f], default_filters=[f]+f2} x {body, def} x 14 values in sequence (True, 1, 1.0, False, 0, 0.0, Decimal 1 / 1.0, two equal objects, one object with two texts, a list, a str), forward and reversed",
         "fpart": "15 spellings of the filter part x 2 default_filters x {body, def} x 2 values; 9 attribute spellings x {def, buffered def, 2 blocks, text, page}; 4 page lists naming context callables x 5 positions x 3 local lists",
         "shared": "15 templates (3 bodies x 5 page settings): all 225 ordered pairs x 2 default_filters lists x {one list object given to Template() twice, one TemplateLookup}; every template re-rendered after each compile; 3 input lists compared afterwards",
@@ -95,6 +100,7 @@ BOUNDS = {
         "bind": "as quick",
         "nest": "as quick",
         "vals": "as quick",
+        "strict": "as quick",
         "fpart": "as quick",
         "shared": "as quick with 4 default_filters lists",
         "spell": "quick with 4 filter parts for atoms and depth 1, depth 2 over 4 atoms x 40^2 x 2; + atoms with content 3 x 2; 26 core atoms x 40^2 wrappers; 2 atoms x 40^3 wrappers",
@@ -375,6 +381,60 @@ def gen_nest(tier, seed):
                 p = pipe_prog(L, D, None, "body", bind="imports")
                 p["fam"] = "multi"
                 yield p, vals
+
+
+STRICT_FLAGS = ["n", "h", "x", "u", "trim", "entity", "unicode", "str", "decode.utf8", "decode.latin1", "f1"]
+
+
+def gen_strict(tier, seed):
+    """strict_undefined=True and a context holding only the data names (user callables come from imports=): every
+    flag name in every filter position - expression list, page expression_filter, filter= of def / block / text,
+    buffer_filters, default_filters - through Template and through TemplateLookup.  A flag name is never a
+    variable of the template, so no render may fail for want of one"""
+    F = STRICT_FLAGS
+    progs = []
+    for L in lists_upto(F, 1):
+        for pos in POSITIONS:
+            for D in D_SUB:
+                for P in (None, ["f4"], ["n", "f4"], ["h"]):
+                    progs.append(pipe_prog(L, D, P, pos, bind="imports"))
+    for L in itertools.product(F, repeat=2):
+        for pos in ("body", "def"):
+            for P in (None, ["n", "f4"]):
+                progs.append(pipe_prog(list(L), None, P, pos, bind="imports"))
+    for f in F:  # page position
+        for P in ([f], ["n", f], [f, "f4"]):
+            if P.count("n") > 1:
+                continue
+            for L in ([], ["n"], ["f1"]):
+                for pos in POSITIONS:
+                    progs.append(pipe_prog(L, None, P, pos, bind="imports"))
+    for L in lists_upto(F, 2):  # filter= position
+        for cons, ce in TAG_CONSTRUCTS:
+            if ce or (len(L) == 2 and cons in ("nblock-f",)):
+                continue
+            for B, D, P in (([], None, None), (["f5", "trim"], ["f3", "h"], ["n", "f4"])):
+                p = tagf_prog(L, cons, ce, B, D, P)
+                p["bind"] = "imports"
+                progs.append(p)
+    for f in F:  # buffer_filters / default_filters positions (n there is not documented: left out)
+        if f == "n":
+            continue
+        for B in ([f], [f, "f5"], ["f5", f]):
+            for L in ([], ["f1"]):
+                p = tagf_prog(L, "def-bf", [], B, None, None)
+                p["bind"] = "imports"
+                progs.append(p)
+        for D in ([f], [f, "f3"], ["f3", f]):
+            for L in ([], ["n"], ["f1"]):
+                for pos in ("body", "def", "call"):
+                    progs.append(pipe_prog(L, D, ["f4"] if L else None, pos, bind="imports"))
+    for p in progs:
+        for via in ("template", "lookup"):
+            q = dict(p, fam="strict", strict=True)
+            if via == "lookup":
+                q["via"] = "lookup"
+            yield q, (0, 3)
 
 
 VAL_FILTERS = ["h", "x", "u", "trim", "entity", "str", "unicode", "decode.utf8", "f1"]
@@ -665,7 +725,14 @@ def check_prog(prog, vnames, st, tags=None, fam=None, lex=False, nt=None):
     fam = fam or prog.get("fam", "pipe")
     text, kw = c02_ref.print_program(prog)
     try:
-        tmpl = Template(text, **kw)
+        if prog.get("via") == "lookup":
+            from mako.lookup import TemplateLookup
+
+            lk = TemplateLookup(**kw)
+            lk.put_string("/c02.mako", text)
+            tmpl = lk.get_template("/c02.mako")
+        else:
+            tmpl = Template(text, **kw)
         cexc = None
     except BaseException as e:  # noqa
         tmpl = None
@@ -704,7 +771,7 @@ def check_prog(prog, vnames, st, tags=None, fam=None, lex=False, nt=None):
         st.transitions += exp[2]
         if nt:
             st.nontrivial += 1
-        st.outcomes[(fam if fam in ("pipe", "tagf", "bind", "decoy", "nest", "multi", "vals", "fpart") else "spell", exp[0], obs[0] if obs[0] == "ok" else "exc:" + obs[1])] += 1
+        st.outcomes[(fam if fam in ("pipe", "tagf", "bind", "decoy", "nest", "multi", "vals", "fpart", "strict") else "spell", exp[0], obs[0] if obs[0] == "ok" else "exc:" + obs[1])] += 1
         bad = None
         case = {"prog": prog, "ctx": ctxj, "tags": tags or []}
         if exp[0] == "ok":
@@ -786,7 +853,7 @@ def check_lex(prog, text, st, tags):
 # --------------------------------------------------------------------------
 # jobs
 
-N_PIPE, N_TAGF, N_SPELL, N_BIND, N_SHARED = 41, 17, 23, 7, 4  # primes: shards cut across every dimension
+N_PIPE, N_TAGF, N_SPELL, N_BIND, N_SHARED, N_STRICT = 41, 17, 23, 7, 4, 11  # primes: shards cut across every dimension
 
 
 def plan(tier, seed):
@@ -803,6 +870,8 @@ def plan(tier, seed):
     jobs.append({"kind": "vals", "tier": tier, "seed": seed, "shard": 0, "nshards": 1, "reverse": False})
     jobs.append({"kind": "vals", "tier": tier, "seed": seed, "shard": 0, "nshards": 1, "reverse": True})
     jobs.append({"kind": "fpart", "tier": tier, "seed": seed, "shard": 0, "nshards": 1})
+    for i in range(N_STRICT):
+        jobs.append({"kind": "strict", "tier": tier, "seed": seed, "shard": i, "nshards": N_STRICT})
     for i in range(N_SHARED):
         jobs.append({"kind": "shared", "tier": tier, "seed": seed, "shard": i, "nshards": N_SHARED})
     return jobs
@@ -854,14 +923,14 @@ def _run_job2(job, st):
             st.extra["spell_" + fam] = st.extra.get("spell_" + fam, 0) + 1
             seen.add(zlib.crc32(text.encode("utf-8")))
     else:
-        gen = {"pipe": gen_pipe, "tagf": gen_tagf, "bind": gen_bind, "nest": gen_nest, "vals": gen_vals, "fpart": gen_fpart}[job["kind"]]
+        gen = {"pipe": gen_pipe, "tagf": gen_tagf, "bind": gen_bind, "nest": gen_nest, "vals": gen_vals, "fpart": gen_fpart, "strict": gen_strict}[job["kind"]]
         it = gen(tier, seed, job["reverse"]) if job["kind"] == "vals" else gen(tier, seed)
         for i, (prog, vi) in enumerate(it):
             if i % ns != sh:
                 continue
             text, kw = check_prog(prog, [values[j] if isinstance(j, int) else j for j in vi], st)
             nprog += 1
-            rest = [kw, prog.get("vals"), c02_ref.print_program(prog["sub"]) if prog.get("sub") else None, job.get("reverse")]
+            rest = [kw, prog.get("via"), prog.get("vals"), c02_ref.print_program(prog["sub"]) if prog.get("sub") else None, job.get("reverse")]
             seen.add((zlib.crc32(text.encode("utf-8")), zlib.crc32(json.dumps(rest, sort_keys=True).encode())))
     st.extra["programs_" + job["kind"]] = st.extra.get("programs_" + job["kind"], 0) + nprog
     st.extra["duplicate_programs"] = st.extra.get("duplicate_programs", 0) + (nprog - len(seen))
